@@ -10,6 +10,7 @@ import (
 	"bytes"
 	"fmt"
 	"io"
+	"sync"
 	"time"
 
 	"simrt"
@@ -310,6 +311,17 @@ func c02Scripts(rc *simrt.RunCtx) {
 		firstErr error
 		after    int // successful reads after the first error
 	}
+	// read buffers: large ones (one record per Read), or small and varying
+	// ones, so that a record is handed out over several Read calls
+	smallReads := rc.Pick(2, "rd.small-buffers") == 1
+	bufSize := func() int {
+		if smallReads {
+			return c15ReadSize(rc)
+		}
+		return 70000
+	}
+	var keptMu sync.Mutex
+	var kept, keptCopy [][]byte
 	read := func(who int, want [][]byte) *res {
 		out := &res{}
 		dl := time.Now().Add(2 * time.Second)
@@ -326,12 +338,20 @@ func c02Scripts(rc *simrt.RunCtx) {
 					m, c = s.cli.conn.noise, s.ca
 				}
 				b, err = m.ReadMessage(c)
+				if err == nil {
+					// the caller keeps the slice it was given: a later
+					// record must not change it
+					keptMu.Lock()
+					kept = append(kept, b)
+					keptCopy = append(keptCopy, append([]byte(nil), b...))
+					keptMu.Unlock()
+				}
 			case "grpcconn":
 				c := s.srv.net
 				if who == 1 {
 					c = s.cli.net
 				}
-				buf := make([]byte, 70000)
+				buf := make([]byte, bufSize())
 				var n int
 				n, err = c.Read(buf)
 				b = buf[:n]
@@ -340,7 +360,7 @@ func c02Scripts(rc *simrt.RunCtx) {
 				if who == 1 {
 					c = ncCli
 				}
-				buf := make([]byte, 70000)
+				buf := make([]byte, bufSize())
 				var n int
 				n, err = c.Read(buf)
 				b = buf[:n]
@@ -398,6 +418,11 @@ func c02Scripts(rc *simrt.RunCtx) {
 	}
 	judge("A->B", rA, sentA, intactA, scriptA)
 	judge("B->A", rB, sentB, intactB, scriptB)
+	for i := range kept {
+		if !rc.Failed() && !eqBytes(kept[i], keptCopy[i]) {
+			rc.Violate("c02.returned-message-changed", "aliased-buffer", "via %s (kk=%v): message #%d returned by ReadMessage (%d bytes) was changed afterwards by the reading of later records (first difference at byte %d): data handed to the caller as valid no longer is what the peer wrote", api, kk, i, len(keptCopy[i]), firstDiff(kept[i], keptCopy[i]))
+		}
+	}
 	rc.Progress()
 	_ = io.EOF
 }
